@@ -21,3 +21,20 @@ Definition spec (c : case) : bool :=
 (** The model itself judged by the spec (used by the bounded sweeps). *)
 Definition model_spec (cs : list ctxspec) (init : initsel) (ign : bool) (argv : list string) : bool :=
   spec_ok cs (initial_of init) ign argv (model_parse cs init ign argv).
+
+(** clause-level attribution (harness: [finding_of] receives the verdict of
+    every predicate in [preds]): the observation is a result, every clause of
+    [spec_ok] except B2 is satisfied, and B2 ("value-requiring flag left
+    without a value") is the one that fails. *)
+Definition only_b2 (c : case) : bool :=
+  match c with
+  | ParseCase cs init ign argv (Ok o) =>
+      let i := initial_of init in
+      let body := before_ddash argv in
+      b1_no_missing_positionals cs i o
+      && b2_dangling_flag cs i body o
+      && negb (b3_unknown_due cs i body && (negb ign || match o_unparsed o with [] => true | _ => false end))
+      && negb (b4_ambiguity_due cs i body)
+      && negb (b5_bad_value_due cs i body)
+  | _ => false
+  end.
